@@ -24,7 +24,7 @@ func init() {
 			"the with-expressions of the sandboxed include itself are written in the outer template and evaluated with outer permissions",
 			"macro calls count as function calls for the policy check (observed behaviour), so macro names used inside the sandbox are allowed functions",
 		},
-		quick: 28*13*2*4*2 + 24000, thorough: 28*13*2*4*2 + 400000, minQuick: 3000, minThorough: 60000,
+		quick: 38*13*2*4*2 + 24000, thorough: 38*13*2*4*2 + 400000, minQuick: 3000, minThorough: 60000,
 	}})
 }
 
@@ -68,6 +68,18 @@ var c06Positions = []string{
 	"{{ xs[%F] }}",
 	"{{ v|okf(1, %F) }}",
 	"{% do %F %}",
+	// inside constructs that tolerate a missing or failing operand (default on an access path, the defined test, ignore
+	// missing): the violation must still be reported
+	"{{ xs[%F]|default('d') }}",
+	"{{ (%F).x|default('d') }}",
+	"{{ (%F)[0]|default('d') }}",
+	"{% if (%F).x|default(false) %}y{% else %}n{% endif %}",
+	"{{ zz.a[%F]|default('d') }}",
+	"{{ (%F)|default('d') }}",
+	"{{ (%F).x is defined ? 1 : 0 }}",
+	"{{ xs[%F] is defined ? 1 : 0 }}",
+	"{% include 'nope_' ~ (%F) ignore missing %}",
+	"{% for i in xs[%F]|default([]) %}{{ i }}{% endfor %}",
 	// method-form calls on a value that is no macro module fall back to the function table
 	"{{ v.X_FN() }}",
 	"{{ v.X_FN(1, v) }}",
